@@ -94,6 +94,61 @@ func c14CSSChild(args []string) int {
 			}
 			call(strings.Join(parts, gen.Pick(r, []string{" ", " ", ",", ", ", " / "})))
 		}
+		// every ordered triple (and a sample of 4- and 5-tuples) of tokens the handler accepts on their own:
+		// component-count and position dependent code (shorthands, "edge offset" pairs) is reached
+		var acc []string
+		nWord, nOther := 0, 0
+		for _, t := range pool {
+			if len(t) == 0 || len(t) > 12 || strings.ContainsAny(t, " ,") || !h(t) {
+				continue
+			}
+			// a spread of shapes: up to 9 keywords and up to 6 numbers / lengths / others
+			if c := t[0]; (c >= 'a' && c <= 'z') && !strings.Contains(t, "(") {
+				if nWord < 9 {
+					nWord++
+					acc = append(acc, t)
+				}
+			} else if nOther < 6 {
+				nOther++
+				acc = append(acc, t)
+			}
+		}
+		for _, a := range acc {
+			for _, b := range acc {
+				call(a + " " + b)
+				for _, c := range acc {
+					call(a + " " + b + " " + c)
+					if len(acc) <= 8 {
+						call(a + ", " + b + ", " + c)
+					}
+				}
+			}
+		}
+		// ... and of 26 words that are keywords or values of many properties, accepted here or not: a handler
+		// taught a new form reads components it used to refuse
+		for _, a := range cssCommonWords {
+			for _, b := range cssCommonWords {
+				for _, c := range cssCommonWords {
+					call(a + " " + b + " " + c)
+				}
+			}
+		}
+		for i := 0; i < ctx.N(2000, 20000); i++ {
+			k := 4 + r.Intn(4)
+			parts := make([]string, k)
+			for j := range parts {
+				parts[j] = cssCommonWords[r.Intn(len(cssCommonWords))]
+			}
+			call(strings.Join(parts, " "))
+		}
+		for i := 0; i < ctx.N(400, 4000) && len(acc) > 1; i++ {
+			k := 4 + r.Intn(3)
+			parts := make([]string, k)
+			for j := range parts {
+				parts[j] = acc[r.Intn(len(acc))]
+			}
+			call(strings.Join(parts, " "))
+		}
 		// long structured values: one functional notation whose argument list is n components joined by an
 		// operator or separator, with an acceptable and an unacceptable last component. Whatever a handler
 		// does with the inside of a function has to stay cheap; the worker's CPU limit is the oracle.
@@ -122,6 +177,8 @@ func c14CSSChild(args []string) int {
 	fmt.Printf("\nVMON-CHILD-STATE %s\n", ctx.ExportState())
 	return 0
 }
+
+var cssCommonWords = []string{"left", "right", "top", "bottom", "center", "auto", "none", "inherit", "0", "1", "10px", "50%", "1em", "-1px", "red", "#fff", "solid", "thin", "inset", "both", "1s", "all", "ease", "normal", "bold", "block"}
 
 var cssFunctionNames = []string{"calc", "min", "max", "clamp", "var", "env", "attr", "url", "rgb", "rgba", "hsl", "hsla", "repeat", "minmax", "fit-content", "translate", "rotate", "scale", "matrix", "matrix3d", "perspective",
 	"cubic-bezier", "steps", "drop-shadow", "blur", "hue-rotate", "linear-gradient", "radial-gradient", "counter", "format", "local", "inset", "circle", "polygon", "rect", "image-set", "x"}
